@@ -105,7 +105,11 @@ func (i *Interceptors) NewSegment(val string) (*Segment, error) {
 	if !seg.ignoreName {
 		name = "P<" + seg.Name + ">"
 	}
-	expr, err := regexp.Compile("(?" + name + seg.rule + ")" + regexp.QuoteMeta(seg.Suffix))
+	tail := regexp.QuoteMeta(seg.Suffix)
+	if seg.Suffix == "" { // 没有后缀的正则节点必然处于路由项的末尾，需要匹配所有剩余的内容，否则 zh|zh-CN 无法匹配 zh-CN。
+		tail = `\z`
+	}
+	expr, err := regexp.Compile("(?" + name + seg.rule + ")" + tail)
 	if err != nil {
 		return nil, err
 	}
